@@ -71,6 +71,26 @@ static void X_swap__long_ref_long_ref(long *a, long *b) { long t = *a; *a = *b; 
 static void X_swap__unsigned_long_ref_unsigned_long_ref(unsigned long *a, unsigned long *b) { unsigned long t = *a; *a = *b; *b = t; }
 static void X_swap__Elem_ptr_ref_Elem_ptr_ref(struct Elem **a, struct Elem **b) { struct Elem *t = *a; *a = *b; *b = t; }
 
+/* std::copy / std::move(range) over elements: element-wise copy (move) ASSIGNMENT onto existing objects.  As with memcpy,
+ * only the elements at the ghost indices (the watched slot, g_k) are assigned explicitly; the rest of the destination
+ * range is left nondeterministic. */
+size_t g_k;
+static struct Elem *X_copy__Elem_ptr_Elem_ptr_Elem_ptr(struct Elem *f, struct Elem *l, struct Elem *o) {
+  __CPROVER_assert(__CPROVER_same_object(f, l) && f <= l, "std::copy: valid source range");
+  size_t n = (size_t)(l - f);
+  if (n > 0) {
+    __CPROVER_assert(__CPROVER_r_ok(f, n * sizeof(struct Elem)) && __CPROVER_w_ok(o, n * sizeof(struct Elem)), "std::copy stays inside both ranges");
+    size_t oi = (size_t)__CPROVER_POINTER_OFFSET(o) / sizeof(struct Elem);
+    struct Elem wsave; _Bool wat = (__CPROVER_POINTER_OBJECT(o) == g_wobj && g_wp >= oi && g_wp - oi < n);
+    struct Elem ksave; _Bool kat = (g_k >= oi && g_k - oi < n);
+    if (wat) wsave = o[g_wp - oi];
+    if (kat) ksave = o[g_k - oi];
+    __CPROVER_havoc_slice(o, n * sizeof(struct Elem));
+    if (kat) { o[g_k - oi] = ksave; Elem__assign_copy(&o[g_k - oi], &f[g_k - oi]); }
+    if (wat && !(kat && g_k == g_wp)) { o[g_wp - oi] = wsave; Elem__assign_copy(&o[g_wp - oi], &f[g_wp - oi]); }
+  }
+  return o + n;
+}
 /* std::exchange for the shapes a move constructor would use */
 static unsigned long X_exchange__unsigned_long_ref_int_rref(unsigned long *o, int *n) { unsigned long t = *o; *o = (unsigned long)*n; return t; }
 static unsigned long X_exchange__unsigned_long_ref_unsigned_long_rref(unsigned long *o, unsigned long *n) { unsigned long t = *o; *o = *n; return t; }
